@@ -30,13 +30,13 @@ ALLSCOPES = '"file", "M", "N"'
 RUNS = {
     "quick": [
         dict(name="exh1", maxfields=1, maxweight=1, minfields=1, minweight=0, syn=ALLSYN, scopes=ALLSCOPES, sim=None),
-        dict(name="sim", maxfields=3, maxweight=9, minfields=2, minweight=3, syn=ALLSYN, scopes=ALLSCOPES, sim=25, depth=12),
+        dict(name="sim", maxfields=3, maxweight=9, minfields=2, minweight=3, syn=ALLSYN, scopes=ALLSCOPES, sim=8, depth=12),
     ],
     "thorough": [
         dict(name="exh1", maxfields=1, maxweight=1, minfields=1, minweight=0, syn=ALLSYN, scopes=ALLSCOPES, sim=None, coverage=True),
         dict(name="exh2", maxfields=1, maxweight=2, minfields=1, minweight=2, syn=ALLSYN, scopes=ALLSCOPES, sim=None),
         dict(name="exh3", maxfields=1, maxweight=3, minfields=1, minweight=3, syn='"editions"', scopes='"file", "N"', sim=None),
-        dict(name="sim", maxfields=3, maxweight=10, minfields=2, minweight=3, syn=ALLSYN, scopes=ALLSCOPES, sim=400, depth=13),
+        dict(name="sim", maxfields=3, maxweight=10, minfields=2, minweight=3, syn=ALLSYN, scopes=ALLSCOPES, sim=250, depth=13),
     ],
 }
 
@@ -104,7 +104,7 @@ REQUIRED_FLAGS = {
     "presence:True", "presence:False", "packed:True", "packed:False",
     "where:plain", "where:oneof", "where:ext", "scope:file", "scope:M", "scope:N",
     "field:map", "field:default", "field:optional-keyword", "field:group-like-text-name", "field:group-like-text-name:editions",
-    "field:delimited-not-group-like", "field:packed-option",
+    "field:delimited-not-group-like", "field:packed-option", "msg:two-required",
 }
 
 
@@ -139,12 +139,16 @@ def run(pid, tier, replay=None):
     samples = []
     bounds = []
 
+    harness = []
+
     def judge(mism, casefile):
         lines = None
         for m in mism:
             if m["class"].startswith("HARNESS:"):
-                raise vf.MachineryError("generator / renderer bug: %s %s: %s" % (m["class"], m["key"], m["detail"][:2000]))
-        for m in mism:
+                # a Valid file value that does not compile, or a compiled file whose elements are not the spec's: not a C04
+                # verdict by itself (exit 2) -- unless genuine attribute disagreements are found as well (then exit 1 wins)
+                harness.append(m)
+                continue
             case = {"key": m["key"]}
             if "line" in m:
                 if lines is None:
@@ -163,6 +167,8 @@ def run(pid, tier, replay=None):
         judge(run_driver_on(binary, casefile, verdict, stats, None), casefile)
         rc = verdict.finish()
         print("replayed %d case(s)" % ncases)
+        if rc == 0 and harness:
+            raise vf.MachineryError("generator / renderer bug: %s" % harness[0]["detail"][:2000])
         return rc
 
     seen = set()
@@ -206,7 +212,24 @@ def run(pid, tier, replay=None):
             demo_file = casefile
         judge(run_driver_on(binary, casefile, verdict, stats, None), casefile)
 
-    missing = sorted(REQUIRED_FLAGS - flags)
+    if harness:
+        m = harness[0]
+        msg = "%d case(s) the specification calls valid were not usable: %s %s: %s" % (len(harness), m["class"], m["key"], m["detail"][:2000])
+        if not verdict.violations:
+            raise vf.MachineryError("generator / renderer bug: " + msg)
+        print("NOTE: " + msg[:600], flush=True)
+        rc = verdict.finish()
+        vf.write_evidence(pid, tier, "model_checking", {"states": states, "transitions": trans, "traces_validated_against_impl": ncases,
+                          "evaluations": stats["checks"], "distinct_nontrivial": nontrivial, "samples": samples, "exhaustive": True,
+                          "bounds": bounds, "driver_stats": dict(stats), "unusable_cases": len(harness)}, [], time.time() - t0,
+                          violations=len(verdict.violations), known=verdict.known_hits)
+        return rc
+
+    need = set(REQUIRED_FLAGS)
+    if tier == "quick":   # these need two decorations (e.g. file IMPLICIT + enum CLOSED): exhaustive only in the thorough tier
+        need -= {"breaks:implicit-field-closed-enum", "breaks:implicit-field-default", "breaks:map-value-closed-enum-implicit",
+                 "msg:two-required"}
+    missing = sorted(need - flags)
     if missing:
         raise vf.MachineryError("vacuous: no replayed case expects %s" % missing)
 
@@ -221,7 +244,7 @@ def run(pid, tier, replay=None):
     dstats = collections.Counter()
     for attr in ("is_packed", "required_numbers", "feat.json_format"):
         mm = run_driver_on(binary, demo, None, dstats, None, extra=["-corrupt", attr])
-        hit = {m["line"] for m in mm if m["class"].endswith("." + attr + ":both")}
+        hit = {m["line"] for m in mm if ("." + attr + ":") in m["class"]}
         if len(hit) != len(pick):
             raise vf.MachineryError("binding self-test: corrupted expectation %s not rejected on every case (%d of %d)" %
                                     (attr, len(hit), len(pick)))
